@@ -61,7 +61,12 @@ def parseSctpPkt (t : String) : Option SctpSt.Pkt :=
   | [c, hx, ck] => do
     let bs ← unhex hx
     let cookies ← (if ck = "-" then some [] else (ck.splitOn "+").mapM (fun h => (unhex h).map List.toArray))
-    some ⟨bs, c = "1", cookies⟩
+    some ⟨bs, c = "1", cookies, []⟩
+  | [c, hx, ck, tx] => do
+    let bs ← unhex hx
+    let cookies ← (if ck = "-" then some [] else (ck.splitOn "+").mapM (fun h => (unhex h).map List.toArray))
+    let sent ← (tx.splitOn ",").mapM String.toNat?
+    some ⟨bs, c = "1", cookies, sent⟩
   | _ => none
 
 def handleSpecial (stream : String) (args : List String) : String :=
